@@ -6,6 +6,12 @@ CHECKS = {
  'C01': dict(engine='gev-c01', technique='bounded-exhaustive input-space exploration of the real compilers (string trie x parser contexts, single-deviation mutants, scaling families) with a step-fuel oracle',
    text='Every string over a 50-symbol template alphabet (and a 67-token alphabet) up to the stated length is placed in each of 40 parser control states and run through add_tmpl, all six emit APIs and both printers; every single deviation of a 67-seed well-formed corpus, every p^n scaling family and 13 depth-64 nesting families likewise; stylesheets over a 40-symbol / 45-token alphabet in 12 contexts under 8 (quick) / 1008 (thorough) option sets. Oracle: no panic, parser-step fuel below 4000+400n+8n^2, output below 64KiB+512n+64n^2, steps(2n)/steps(n)<=5. Exhaustive within the bound; nothing beyond it is claimed.',
    note='Trusted: catch_unwind, the fuel hook placement (all ParseState cursor primitives / StepParser token primitives), a 30 s watchdog for loops outside the cursor. Inputs nested deeper than 64 are outside the property.', ref='4/C01'),
+ 'C08': dict(engine='gev-c08', technique='bounded-exhaustive exploration of a stylesheet grammar (selector trees, wrapper chains, token-adjacency cube, filler insertion) against a token-level reference rewrite',
+   text='Every selector of the model grammar up to function-nesting depth 2 (quick) / 3 (thorough), under every chain of rule-bearing at-rules up to length 2 / 3; every ordered pair (and triple, thorough) of 60 token kinds with and without a blank in 7 value contexts; every comment / blank filler at every gap. The output is re-tokenised and must equal the input token list with the documented rewrites applied; blanks the model marks as meaningful (descendant combinators at any depth, around + and - in calc) must survive; micro-syntax spans (An+B, unicode-range) are compared by denotation.',
+   note='Trusted: cssparser tokenizer (both sides), parse_nth / UnicodeRange::parse for denotations. CSS nesting is outside the quantifier. Numeric values are compared loosely here (exactness is C10).', ref='4/C08'),
+ 'C09': dict(engine='gev-c08', technique='same exploration as C08 with the class-rewrite oracle: set of rewritten positions == set of class-name pieces of the model',
+   text='On the C08 space (plus 6 prefix spellings incl. empty, non-ASCII, blank-containing) the model knows which identifier pieces are class names in selector context (any function depth, any rule-bearing wrapper, at-rule prelude blocks); each must come out as P--name exactly once, preceded by the sign comment iff configured, and no other identifier may acquire the prefix or a sign comment.',
+   note='Trusted: cssparser tokenizer. An identifier after a dot separated by white space is not a class selector (model rule).', ref='4/C09'),
 }
 
 NOT_YET = {}
